@@ -58,7 +58,7 @@ static void call_end(const char *params)
     }
 }
 
-static uint8_t SEC[700000] __attribute__((aligned(64))), OUT[700000] __attribute__((aligned(64))), TW[200000] __attribute__((aligned(64)));
+static uint8_t SEC[700000] __attribute__((aligned(64))), OUT[700000] __attribute__((aligned(64))), TW[700000] __attribute__((aligned(64)));
 
 static void case_plain(uint64_t k, vh_rng *r)
 {
@@ -163,10 +163,12 @@ static void case_par(uint64_t k, vh_rng *r)
     const vh_cipher *c = &vh_ciphers[k % CIPH_N];
     uint64_t q = k / CIPH_N;
     int be = (int)(q % (uint64_t)(maxbe[c->id] + 1));
-    unsigned klen = c->id == CIPH_MANTIS ? 16 : c->bb + (unsigned)((q / 3) % (2 * c->bb + 1)), nb = (q % 53 == 29) ? 4200 + (unsigned)(q % 300) : (unsigned)((q / 2) % 21), len = nb * c->bb;
+    unsigned klen = c->id == CIPH_MANTIS ? 16 : c->bb + (unsigned)((q / 3) % (2 * c->bb + 1)), nb = (q % 53 == 29) ? (66000 + (unsigned)(q % 3000)) / c->bb : (unsigned)((q / 2) % 21), len;   /* large requests: at least 64 KiB for every block size */
     vh_handle h; char params[128]; const char *ben = vh_backend_names[be]; static char fnb[5][56]; unsigned i;
     static const char *const suf[5] = {"parallel_ecb_set_key", "parallel_ecb_encrypt", "parallel_ecb_decrypt", "parallel_ecb_swap_modes", "parallel_ecb_crypt"};
     for (i = 0; i < 5; ++i) snprintf(fnb[i], 56, "%s_%s", c->name, suf[i]);
+    if (q % 307 == 33) nb = (530000 + (unsigned)(q % 60000)) / c->bb;     /* ... and 512 KiB and more */
+    len = nb * c->bb;
     vh_rand_bytes(r, SEC, 64 + len); vh_rand_bytes(r, TW, len); PUBLIC(SEC, 64 + len); PUBLIC(TW, len);
     memset(&h, 0, sizeof(h));
     vh_set_cap(be);
